@@ -51,6 +51,7 @@ def parseOp : List String → Option Op
   | ["start", i] => (fun n => Op.start (some n)) <$> i.toNat?
   | ["abort", e] => Op.abortCall <$> parseErr e
   | ["handlerErr", i, f] => do pure (.handlerErr (← i.toNat?) (← parseFamily f))
+  | ["handlerErr", i] => (fun n => Op.handlerErr n .generic) <$> i.toNat?       -- (C14's protocol: a generic exception)
   | ["earlyInitFail", i] => Op.earlyInitFail <$> i.toNat?
   | ["paramErr"] => some .paramErr
   | ["unknownEvt"] => some .unknownEvt
@@ -60,6 +61,7 @@ def parseOp : List String → Option Op
   | ["ctrlShutdown"] => some .ctrlShutdown
   | ["armCalc", i] => (fun n => Op.armCalc (.calc n)) <$> i.toNat?
   | ["armCalcHandler", i, f] => do pure (.armCalc (.calcHandler (← i.toNat?) (← parseFamily f)))
+  | ["armCalcHandler", i] => (fun n => Op.armCalc (.calcHandler n .generic)) <$> i.toNat?
   | ["rawCancel"] => some .rawCancel
   | ["monTrigger", i] => Op.monTrigger <$> i.toNat?
   | ["supFail", i, e] => do pure (.supTrigger (← i.toNat?) (some (← e.toNat?)))
